@@ -41,28 +41,35 @@ def run(ck, tier, seed):
         "403 vs 404 is not distinguished: the property only separates 'file bytes returned' from 'refused'; a 301 from http.ServeMux is 'refused'",
         "Linux only; no FIFOs/devices",
     ]
-    alpha, maxlen = (ALPHA_Q, 2) if quick else (ALPHA_T, 3)
-    lay_filter = 'lay.m = Ab \\/ lay.l = Ab' if quick else "TRUE"
-    cases = []
-    r = model(ck, "layouts-x-requests", alpha, maxlen, lay_filter, sink=cases.append)
-    ck.expect_model_ok("layouts-x-requests", r)
-    ck.add_model("layouts-x-requests", r)
-    if not cases:
-        raise vf.InfraError("no layouts emitted")
-    rnd.shuffle(cases)
-    # replay: quick = every layout with an escaping link somewhere + a sample; thorough = all
-    keep = cases if not quick else cases[:120]
+    # quick: 9 names, paths up to 2 segments, layouts with l or m absent.  thorough: (a) all 2420 layouts x the full
+    # 15-name alphabet up to 2 segments, (b) the quick layouts x 9 names up to 3 segments (the full product of both
+    # would be 26 million states)
+    plans = [(ALPHA_Q, 2, 'lay.m = Ab \\/ lay.l = Ab')] if quick else [(ALPHA_T, 2, "TRUE"), (ALPHA_Q, 3, 'lay.m = Ab \\/ lay.l = Ab')]
+    keep = []
+    for pi_, (alpha, maxlen, lay_filter) in enumerate(plans):
+        cases = []
+        name = "layouts-x-requests-%d" % pi_
+        r = model(ck, name, alpha, maxlen, lay_filter, sink=cases.append, timeout=5000)
+        ck.expect_model_ok(name, r)
+        ck.add_model(name, r)
+        if not cases:
+            raise vf.InfraError("no layouts emitted")
+        rnd.shuffle(cases)
+        # replay: quick = a sample of the layouts; thorough = all
+        part = cases if not quick else cases[:120]
+        for c in part:
+            c["alpha"] = alpha
+            c["maxlen"] = maxlen
+            c["modes"] = ["static", "list", "sendfile"]
+        keep += part
     for i, c in enumerate(keep):
         c["id"] = i
-        c["alpha"] = alpha
-        c["maxlen"] = maxlen
-        c["modes"] = ["static", "list", "sendfile"]
     work = vf.scratch("verif-c17-")
     path = os.path.join(work, "cases.ndjson")
     vf.write_ndjson(path, keep)
     out = path + ".out"
     rc, txt = vf.go_test("pkg/web", ["static_test.go"], run="TestVerifStaticReplay$",
-                         env={"VERIF_CASES": path, "VERIF_OUT": out}, timeout=3000)
+                         env={"VERIF_CASES": path, "VERIF_OUT": out}, timeout=6000)
     res = vf.read_ndjson(out)
     summ = [x for x in res if x.get("summary")]
     if not summ or summ[0]["cases"] != len(keep):
